@@ -209,7 +209,12 @@ where
     type Stream = Self;
 
     fn into_parts(self) -> (Vector<VectorDiffContainerStreamElement<S>>, Self::Stream) {
-        (self.buffered_vector.clone(), self)
+        // The next observer must start from what this adapter presents (the limited
+        // view), not from the unlimited buffer.
+        let mut values = self.buffered_vector.clone();
+        values.truncate(self.limit);
+
+        (values, self)
     }
 }
 
